@@ -58,6 +58,9 @@ var (
 
 	// ErrSymbolContainsDot symbol contains .
 	ErrSymbolContainsDot = errors.New("symbol contains '.'")
+	// ErrInvalidValue is returned when a reflect.Value that cannot be handed out again is defined or set:
+	// the zero reflect.Value, or a value obtained from an unexported struct field
+	ErrInvalidValue = errors.New("invalid value")
 )
 
 // NewEnv creates new global scope.
